@@ -90,6 +90,9 @@ Theorem key_store_roundtrip : forall lo hi kv,
 Proof. exact key_store_ok. Qed.
 Print Assumptions key_store_roundtrip.
 
+Example key_store_roundtrip_ex : key_store (-32768) 32767 [300; -1] = Ok [300; -1].
+Proof. vm_compute. reflexivity. Qed.
+
 Theorem key_store_int8_refuted : key_store (-128) 127 [300; -1] = Raise E_Overflow.
 Proof. exact key_store_int8_refuted_lemma. Qed.
 Print Assumptions key_store_int8_refuted.
@@ -147,3 +150,13 @@ Theorem idx_read_slice_pinned_nonempty : forall (ro:bool) strs a b,
   iw_getslice_orig ro (stored_offsets strs) (spec_bytes strs) a b = Ok (spec_slice strs a b).
 Proof. exact idx_read_slice_orig_lemma. Qed.
 Print Assumptions idx_read_slice_pinned_nonempty.
+
+(* OBSERVATION outside the property's histories (not a C01 finding; hist_ok excludes it): clear() while
+   entries are staged does not reset the staging fill levels, the abandoned entry resurfaces. The
+   correspondence replays this on the real code (generator stream 5, "no claim"). *)
+Theorem clear_with_staged_data_outside_property :
+  hist_ok false [OpPart [[97]]; OpClear; OpWrite [[98]]] = false
+  /\ iw_history true 2 [OpPart [[97]]; OpClear; OpWrite [[98]]] = Ok ([0; 1; 1], [97; 98])
+  /\ hist_written [] [OpPart [[97]]; OpClear; OpWrite [[98]]] = [[98]].
+Proof. exact clear_with_staged_data_lemma. Qed.
+Print Assumptions clear_with_staged_data_outside_property.
